@@ -704,6 +704,12 @@ impl XferMon {
                     format!("task{task} ended reporting the upload as received after {} in-sequence blocks, none of them shorter than blksize {}: the final block never arrived (last ACK emitted: {})", t.inorder, t.neg.b, t.acked_last),
                 ));
             }
+            if rules.c08 && viol.is_none() && kind == Kind::Upload && t.ack_due && panic.is_none() && !t.error_seen && !t.send_failed && !t.disk_failed && only_worker_of_client {
+                viol = Some((
+                    "ended_without_due_ack".into(),
+                    format!("task{task} ended with {} in-order blocks unacknowledged (windowsize {}, final block received: {})", t.since_ack, t.neg.w, t.final_received),
+                ));
+            }
             let ended_ok = match kind {
                 Kind::Download => t.final_acked && t.last_recv == LastRecv::ValidAck && panic.is_none(),
                 Kind::Upload => t.last_action_was_final && panic.is_none(),
